@@ -235,7 +235,7 @@ def fingerprint_over_normalize(ctx, rule):
         if r.kind != "return" or r.term == t:
             continue
         rt = r.term
-        ok = rt[0] == "slice" and rt[1][0] == "call" and rt[1][1] == "urllib.parse.urlunsplit" and rt[1][2] and rt[1][2][0] == t and rt[2] == ("const", 2)
+        ok = U.is_string_form(rt, t)
         ctx.ob(rule, "fingerprint_url/string-form-is-urlunsplit-of-tuple", ok,
                "fingerprint_url's string form is not urlunsplit(<the unsplit=False tuple>)[2:]: the two forms (and the LRU stems built from the tuple) disagree: %s" % P.show(rt, maxdepth=3), mod.site(r.node))
     # custom filter key (only matters when the url is lower-cased before it is unescaped)
